@@ -77,6 +77,70 @@ func RegisterServer(svc string, r ServerReg, mock bool) {
 	regMu.Unlock()
 }
 
+// DirectInvoker calls one RPC method of a service implementation object directly (no HTTP).
+type DirectInvoker func(ctx context.Context, req proto.Message) (proto.Message, error)
+
+var (
+	mocks    = map[string]func() map[string]DirectInvoker{}
+	mockInst sync.Map // instance key -> map[string]DirectInvoker of ONE mock object
+)
+
+// RegisterMock is called from glue init(): mk builds one New Mock<Svc>Server() and returns its methods.
+func RegisterMock(svc string, mk func() map[string]DirectInvoker) {
+	regMu.Lock()
+	mocks[svc] = mk
+	regMu.Unlock()
+}
+
+// doMockDirect calls a method of a mock implementation object as Go code would; calls with the same
+// reuse key go to the same object.
+func doMockDirect(c *cmd) {
+	ev := map[string]any{"ev": "mock_out", "id": c.ID}
+	defer func() {
+		if p := recover(); p != nil {
+			ev["panic"] = fmt.Sprint(p)
+			ev["stack"] = string(debug.Stack())
+		}
+		emit(ev)
+	}()
+	mk, ok := mocks[c.Client]
+	if !ok {
+		ev["harness"] = "no mock registered for " + c.Client
+		return
+	}
+	key := c.Client + "#" + c.Reuse
+	inst, _ := mockInst.Load(key)
+	if inst == nil || c.Reuse == "" {
+		inst = mk()
+		if c.Reuse != "" {
+			mockInst.Store(key, inst)
+		}
+	}
+	f, ok := inst.(map[string]DirectInvoker)[c.RPC]
+	if !ok {
+		ev["harness"] = "unknown rpc " + c.RPC
+		return
+	}
+	req, err := newMsg(c.ReqType)
+	if err != nil {
+		ev["harness"] = err.Error()
+		return
+	}
+	if err := proto.Unmarshal(unb64(c.Req), req); err != nil {
+		ev["harness"] = err.Error()
+		return
+	}
+	resp, cerr := f(context.Background(), req)
+	if cerr != nil {
+		ev["err"] = describeErr(cerr)
+	}
+	if resp != nil {
+		w, _ := proto.MarshalOptions{Deterministic: true}.Marshal(resp)
+		ev["resp"] = b64(w)
+		ev["has_resp"] = true
+	}
+}
+
 // RegisterClient is called from glue init().
 func RegisterClient(svc string, r ClientReg) {
 	regMu.Lock()
@@ -743,6 +807,8 @@ func dispatch(c *cmd) {
 		doCall(c)
 	case "codec":
 		doCodec(c)
+	case "mockdirect":
+		doMockDirect(c)
 	case "codecburst":
 		doCodecBurst(c)
 	case "enumcodec":
